@@ -146,7 +146,9 @@ func (r *NetconfResponse) recordFailed(b []byte) {
 }
 
 func (r *NetconfResponse) record1dot0() {
-	b := r.RawResult
+	// the newline a server sends after the previous message's delimiter may be the first thing we
+	// have, so trim space before looking for the xml header too
+	b := bytes.TrimSpace(r.RawResult)
 
 	b = bytes.TrimPrefix(b, []byte(xmlHeader))
 	// trim space before trimming suffix because we usually have a trailing newline!
